@@ -469,7 +469,88 @@ def rule_gf9_11(chk: Check):
                 f"a token kind and self.<rule>() for a rule; differs on {bad[:3]} — the regenerated parser would not be the shipped one")
 
 
+def rule_gf12_14(chk: Check):
+    """GF12: the names of the walrus variables of an alternative — `dedupe` evaluated on sequences of names: a name seen before gets
+    the first free `_k` suffix and the name *returned* is the one recorded (the default action of an alternative without an action
+    lists the recorded names).  GF13: `cut` never becomes a recorded variable name.  GF14: every item of a collapsed `seq_alts`
+    alternative is rendered through the visitor (that is where keywords get registered)."""
+    import types
+    from .. import constfold
+    from ..pyflow import stmt_paths
+    pg = parse_py("pegen/parser_generator.py")
+    dd = _find_method(pg, "ParserGenerator", "dedupe")
+    chk.count("GF12-dedupe")
+    if dd is None:
+        raise AnalysisError("ParserGenerator.dedupe vanished")
+    ev = constfold.builder_expr_eval(("append", "count", "index"))
+    bad = []
+    try:
+        for seq in (["a", "b"], ["literal", "literal"], ["literal", "opt", "literal", "literal"], ["x", "x_1", "x"], ["cut", "a", "a"]):
+            me = types.SimpleNamespace(local_variable_names=[])
+            got = [constfold.eval_pure_function(dd, {"self": me, "name": n}, expr_eval=ev, max_steps=500) for n in seq]
+            want, seen = [], []
+            for n in seq:
+                k, cand = 0, n
+                while cand in seen:
+                    k += 1
+                    cand = f"{n}_{k}"
+                seen.append(cand)
+                want.append(cand)
+            if got != want or me.local_variable_names != want:
+                bad.append((seq, got, me.local_variable_names))
+        chk.require(not bad, "GF12-dedupe", "pegen/parser_generator.py:ParserGenerator.dedupe", f"pegen/parser_generator.py:{dd.lineno}",
+                    f"dedupe must return the first free spelling of the name and record exactly what it returns; (names, returned, recorded) = "
+                    f"{bad[:2]} — the default action `[a, b, ...]` of an alternative without an action is built from the recorded names, so the "
+                    f"regenerated helper returns the wrong elements")
+    except constfold.PureEvalError as e:
+        chk.undecided("GF12-dedupe", "pegen/parser_generator.py:ParserGenerator.dedupe", f"pegen/parser_generator.py:{dd.lineno}",
+                      f"outside the evaluable subset: {e}")
+    # GF13
+    py = parse_py("pegen/python_generator.py")
+    ni = _find_method(py, "PythonParserGenerator", "visit_NamedItem")
+    chk.count("GF13-cut-not-a-variable")
+    if ni is None:
+        raise AnalysisError("PythonParserGenerator.visit_NamedItem vanished")
+    ok, seen_call = True, False
+    for pth in stmt_paths(ni.body, split_bool=True):
+        for i, x in enumerate(pth):
+            text = x[1] if x[0] == "do" else ""
+            if "self.dedupe(" in text:
+                seen_call = True
+                before = {y[1]: y[2] for y in pth[:i] if y[0] == "cond"}
+                if not (before.get("name != 'cut'") is True or before.get("name == 'cut'") is False):
+                    ok = False
+    chk.require(ok and seen_call, "GF13-cut-not-a-variable", "pegen/python_generator.py:PythonParserGenerator.visit_NamedItem",
+                f"pegen/python_generator.py:{ni.lineno}",
+                "the commit marker `cut` must not be recorded as a variable of the alternative: an alternative with `~` and no action "
+                "would regenerate as `return [cut, x]` instead of `return x`")
+    # GF14
+    gen = parse_py("tasks/generator.py")
+    rh = _find_method(gen, "XonshCallMakerVisitor", "rhs_helper")
+    chk.count("GF14-items-through-visitor")
+    if rh is None:
+        raise AnalysisError("XonshCallMakerVisitor.rhs_helper vanished")
+    loops = [n for n in rh.body if isinstance(n, ast.For)]
+    ok = len(loops) == 1
+    if ok:
+        n_app = 0
+        for pth in stmt_paths(loops[0].body, split_bool=True):
+            rendered = False
+            for x in pth:
+                text = x[1] if x[0] == "do" else ""
+                if "self.lookahead_call_helper(" in text or "self.visit(" in text or "self.generate_call(" in text:
+                    rendered = True
+                if ".append(" in text:
+                    n_app += 1
+                    ok = ok and rendered
+        ok = ok and n_app >= 1
+    chk.require(ok, "GF14-items-through-visitor", "tasks/generator.py:XonshCallMakerVisitor.rhs_helper", f"tasks/generator.py:{rh.lineno}",
+                "every alternative of a collapsed `seq_alts(...)` group must be rendered by the visitor; text assembled around it skips the "
+                "visitor's bookkeeping (a string leaf that is a keyword is then missing from the regenerated KEYWORDS table)")
+
+
 def run(chk: Check):
+    rule_gf12_14(chk)
     rule_gf1(chk)
     rule_gf2(chk)
     rule_gf3(chk)
